@@ -15,6 +15,7 @@ const (
 	OOk = iota
 	OErr
 	OPanic
+	OGoexit // the function kills its goroutine with runtime.Goexit (domains C03, C05, C06 only)
 )
 
 // Predicate outcomes.
@@ -133,6 +134,7 @@ type Injected struct {
 	Err        error       // returned error (OErr)
 	PV         interface{} // panic value (OPanic), nil for runtime errors
 	PVText     string      // text of runtime-error panics
+	Goexit     bool        // the function exited its goroutine
 	Seq        int64
 }
 
@@ -412,6 +414,8 @@ func (e *Env) finish(pos int, unit, elem int, o Outcome, canErr bool, outs []uin
 		default:
 			inj.Err = &TaskErr{e.ID, unit, elem}
 		}
+	case OGoexit:
+		inj = &Injected{Unit: unit, Elem: elem, Goexit: true}
 	case OPanic:
 		inj = &Injected{Unit: unit, Elem: elem}
 		switch o.PV {
@@ -433,6 +437,8 @@ func (e *Env) finish(pos int, unit, elem int, o Outcome, canErr bool, outs []uin
 	}
 	if e.Race {
 		switch kind {
+		case OGoexit:
+			runtime.Goexit()
 		case OErr:
 			return inj.Err
 		case OPanic:
@@ -460,6 +466,8 @@ func (e *Env) finish(pos int, unit, elem int, o Outcome, canErr bool, outs []uin
 	}
 	e.mu.Unlock()
 	switch kind {
+	case OGoexit:
+		runtime.Goexit()
 	case OErr:
 		return inj.Err
 	case OPanic:
